@@ -15,10 +15,13 @@ CLAIMED = {
                 "column orders (cartesian and polar layouts) must be detected in its column with its sign flag; with all cell values symbolic, 1..2 (3) "
                 "consecutive sweeps of symbolic frequencies (ascending or descending, a single sweep may have one point), sign-inverted imaginary/"
                 "phase columns, degrees or radians, numeric cells or decimal-comma text cells (none / all / single columns), the returned data sets carry exactly the written frequencies and impedances with the documented "
-                "sign, one per sweep, in order; the table emitted by to_dataframe parses back to the same spectrum.",
+                "sign, one per sweep, in order; the table emitted by to_dataframe parses back to the same spectrum. Instrument layouts .i2b .P00 .dfr .dta (also drift-corrected "
+                ".dta): a file in the layout of the repository's sample file is written with one distinct sentinel numeral per number (decimal point or comma, three numeral styles, "
+                "optional trailing empty line), the real line parser reads it, each sentinel entering the table becomes its symbolic real, and z3 decides whether the returned "
+                "data sets can differ from the written spectrum (1..3 (4) points, either order).",
         "design_ref": "DESIGN.md section 4, C06",
-        "note": "PARTIAL: the text layer (pandas.read_csv/to_csv, separator sniffing, the characters of decimal-comma numerals), the instrument layouts (.mpt .i2b .P00 .dfr "
-                ".dta .z) and the CLI table are file I/O / C parsers and are not claimed; cmath.rect is a contract stub; headers are alias + a suffix "
+        "note": "PARTIAL: the text layer (pandas.read_csv/to_csv, separator sniffing, the characters of decimal-comma numerals), the pandas-based instrument layouts (.mpt .z) "
+                "and the CLI table are not claimed; in the .i2b .P00 .dfr .dta layouts the digits of numerals are not modelled (sentinel numerals); cmath.rect is a contract stub; headers are alias + a suffix "
                 "from a fixed list",
     },
     "C07": {
@@ -28,7 +31,10 @@ CLAIMED = {
                 "_imaginary_test of the least-squares implementation (24 variant x representation x C x L combinations) and of the matrix-"
                 "inversion implementation (12) then run with lstsq/pinv/inv replaced by their contract; the stub asks z3, row by row, whether "
                 "A.x* can differ from the right-hand side the code built (every design-matrix column and sign), and the fitted circuit is "
-                "compared with the spectrum (zero residuals) and the generating parameters. num_RC=2 (3), 2 (3) frequencies, all values symbolic.",
+                "compared with the spectrum (zero residuals) and the generating parameters. num_RC=2 (3), 2 (3) frequencies, all values symbolic. Non-linear implementation (8 "
+                "combinations): the real cnls._test_wrapper with lmfit.minimize replaced by the contract of a least-squares minimiser -- the stub names the generating values as the "
+                "zero and z3 decides whether the residual function the code handed over (real _complex_residual, _to_lmfit/_from_lmfit) can be non-zero there; the returned circuit "
+                "must reproduce the spectrum.",
         "design_ref": "DESIGN.md section 4, C07",
         "note": "linear-solver contract (exact minimum-norm solution of a consistent system); floats as reals; matrix-inversion stages that use "
                 "1e-18/1e18 placeholders are executed but not compared; cnls (lmfit) and time-constant generation are outside",
